@@ -18,6 +18,8 @@ SCEN_ONE = {
     'short': dict(target='short_work', targs=['$DIR'], own=('value', '7')),
     'raise': dict(target='short_raise', targs=['$DIR'], own=('error', 'CustomError')),
     'with': dict(target='with_block', targs=['$DIR', 15], own=('value', '15')),
+    # result larger than the pipe buffer: multiprocessing writes header and body separately
+    'bigret': dict(target='big_marked', targs=['$DIR', 100000], own=('value', repr(b'r' * 100000)[:160])),
 }
 SCEN_PERS = {
     'p2': dict(target='p_work', targs=[0, '$DIR'], inputs=[[1], [2]], own=('value', '2')),
@@ -29,7 +31,7 @@ SCEN_PERS = {
     'pfail1': dict(target='p_work', targs=[0, '$DIR'], inputs=[[1, '$DIR', 4, True], [2]], own=('error', 'CustomError')),
     'pfail3': dict(target='p_work', targs=[0, '$DIR'], inputs=[[1], [2], [3, '$DIR', 4, True], [4]], own=('error', 'CustomError')),
 }
-TARGET_FUNCS = {'py_loop', 'short_work', 'short_raise', 'with_block', 'p_work'}
+TARGET_FUNCS = {'py_loop', 'short_work', 'short_raise', 'with_block', 'p_work', 'big_marked'}
 
 
 def scenario_spec(cls, scen):
@@ -44,11 +46,15 @@ def thread_files():
     return lpi.MON_FILES + [threading.__file__]
 
 
-def arm_args(cls):
+def arm_args(cls, wide=False):
     """Thread kinds are armed at the start-up Event.set() of _run (landing points
-    before _init_child are reachable as soon as the constructor returned)."""
+    before _init_child are reachable as soon as the constructor returned).  wide: process kinds also
+    monitor multiprocessing/connection.py (landing between the header and the body of a large send)."""
     if 'Thread' in cls:
         return dict(arm_func='set', arm_cls='Event', arm_caller='_run', files=thread_files())
+    if wide:
+        import multiprocessing.connection as mpc
+        return dict(arm_func='_init_child', arm_cls=cls, files=lpi.MON_FILES + [mpc.__file__])
     return dict(arm_func='_init_child', arm_cls=cls, files=None)
 
 
@@ -168,7 +174,7 @@ def shape(obs, own):
 
 # ---------------------------------------------------------------- running the matrix
 
-def run_matrix(tier, classes, scens_one, scens_pers, salt, action=None, parallel=16, events='ebp', inject_action='await', extra_repeats=8, per_class_cap=None, spec_extra=None):
+def run_matrix(tier, classes, scens_one, scens_pers, salt, action=None, parallel=16, events='ebp', inject_action='await', extra_repeats=8, per_class_cap=None, spec_extra=None, wide=False):
     """Returns (cases, traces).  case = dict(cls, scen, k, own, res, rec_event)."""
     wd = workdir('lp_' + salt)
     jobs = []
@@ -179,7 +185,7 @@ def run_matrix(tier, classes, scens_one, scens_pers, salt, action=None, parallel
         cls, scen = cs
         spec, own = scenario_spec(cls, scen)
         spec.update(spec_extra or {})
-        a = arm_args(cls)
+        a = arm_args(cls, wide)
         files = a['files'] if events == 'ebp' else None
         tr, res = lpi.record(spec, os.path.join(wd, 'rec_%s_%s' % (cls, scen)), events=events, files=files,
                              arm_func=a['arm_func'], arm_cls=a['arm_cls'], arm_caller=a.get('arm_caller'))
@@ -191,7 +197,8 @@ def run_matrix(tier, classes, scens_one, scens_pers, salt, action=None, parallel
     for (cls, scen), (tr, res) in traces.items():
         usable = usable_points(cls, tr)
         kinds = lpi.EBP_KINDS if events == 'ebp' else ('line',)
-        pts = lpi.select(usable, tier, '%s/%s/%s' % (salt, cls, scen), kinds=kinds, extra_repeats=extra_repeats)
+        # wide traces are short and the same helper is entered twice in a row (header write, body write): take every index
+        pts = lpi.select(usable, 'thorough' if wide else tier, '%s/%s/%s' % (salt, cls, scen), kinds=kinds, extra_repeats=extra_repeats)
         if per_class_cap and len(pts) > per_class_cap:
             from vlib.common import rng
             # landing points inside the sections that write to the result stream / report the outcome are never
@@ -209,7 +216,7 @@ def run_matrix(tier, classes, scens_one, scens_pers, salt, action=None, parallel
         cls, scen, k, rec_event = job
         spec, own = scenario_spec(cls, scen)
         spec.update(spec_extra or {})
-        a = arm_args(cls)
+        a = arm_args(cls, wide)
         act = dict(default_action)
         if 'Remote' in cls and act.get('kind') == 'terminate':
             act = dict(act)
